@@ -17,7 +17,7 @@ out = ['# Sensitivity results', '',
        'Each sub-agent saw only the text of one property and a scratch worktree; every change was confirmed here:',
        'the patch applies to /repo HEAD, `tools/baseline_check.py` reports missing=0 on the patched tree, the',
        'demonstration exits 0 on the clean tree and non-zero on the patched tree. The "last sweep" column is the most recent',
-       'run of the seed: the full sweep after round 8, replaced for C01 C02 C03 C07 C10 C11 C12 C14 (partly) C15 by the',
+       'run of the seed: the full sweep after round 8, replaced for C01 C02 C03 C07 C10 C11 C12 C14 (partly) C15 C18 C19 (partly) by the',
        're-run of the own check after the round-9 generator changes (tools/run_seeds_fast.sh), and the evaluation of each',
        'round-9 seed when it was taken. Four seeds that de-duplicate buffer_to_tensors (C01-r4 C03-r6 C07-r6 C15-r4) were',
        're-based after fix F23 touched that function (patch.original.diff keeps the author\'s diff).', '',
